@@ -549,6 +549,8 @@ func c03Exec(c fw.Case) *fw.Result {
 		res.Sample = map[string]any{"goroutines": 16, "documents": len(jobs), "variant": c.Variant}
 	case "long":
 		c03Long(res, c)
+	case "collisions":
+		c03Collisions(res, c)
 	case "globals":
 		c03Globals(res, c)
 	case "random":
@@ -638,6 +640,11 @@ func c03Cases(tier string, seed uint64) []fw.Case {
 			cs = append(cs, fw.Case{Kind: "long", Seed: gen.Sub(seed, "c03long", pi*10+si), P: map[string]int64{"pattern": int64(pi), "n": n, "noise": int64((pi + si) % 2)}})
 		}
 	}
+	// pairs of distinct strings with equal 32-bit fingerprints (12 functions), planted as
+	// neighbouring tag values / keys / roles / user names
+	for ri, root := range []string{"osm", "osmChange"} {
+		cs = append(cs, fw.Case{Kind: "collisions", Seed: gen.Sub(seed, "xmlcoll", ri), S: map[string]string{"root": root}})
+	}
 	// process-global settings
 	for gi := range xmlGlobals {
 		docs := int64(6)
@@ -670,6 +677,7 @@ func init() {
 			"diff create actions hold exactly one element, old/new exactly one element each (the augmented-diff shape the API documents); the scanner is expected to deliver old before new, then the next action, i.e. plain document order",
 			"the scanner is driven in six legal consumer styles chosen by the text (canonical; Err after every Scan; Err once after the k-th Scan; Object twice; Object not fetched for every third object, those positions are not compared; Scan called again after it returned false): read-only accessors and legal call orders must not change what is delivered; the value Err returns in mid-scan is not judged",
 			"long documents (1100-5000 elements, six interleaving patterns): all delivered objects are retained and compared after the scan ended; process globals: the same expectations hold with time.Local set to +05:30 / -05:00 / a DST zone / +14:00, GOMAXPROCS=1 and a de_DE locale environment (settings are restored after the case; the cases run no goroutines)",
+			"collisions: pairs of different equal-length strings with equal 32-bit fingerprints (12 common hash functions; found by a deterministic birthday search at first use) are planted as neighbouring tag values, tag keys, member roles and user names; they are ordinary strings and must come back as written",
 			"encoding/xml itself (tokenizer, entity and character-reference decoding) is part of the execution under observation, not of the oracle",
 			"a literal \"]]>\" inside an attribute value is well-formed XML but rejected by Go's encoding/xml tokenizer; the writer never emits it ('>' after ']' is always escaped in attribute values); three non-asserting probe cases record the rejection (probe_* counters)",
 		},
